@@ -960,3 +960,225 @@ def q_tagging(cfg):
     res.count('appends to the current-interval list', n)
     res.floor('appends to the current-interval list', 1)
     return res
+
+
+def q_last_out(cfg):
+    """Q-12: the epoch advances only when the acting thread is the last one still in the previous epoch"""
+    res = RuleResult('Q-12', 'the global epoch is advanced only by the LAST thread of the previous epoch: every call of change_epoch, and every epoch-advancing state update of a quitting thread, is taken only when the count of threads still in the previous epoch, as observed in the state word the update is applied to, is exactly 1 (comparison evaluated over the admitted counts n >= 1) - advancing with another thread still in the previous epoch frees requests that thread may reference')
+    n_sites = 0
+
+    def obs_of(f, o, inits, depth=0):
+        """is the operand an observation of threads_in_previous_epoch (through const locals)"""
+        x = f.strip_casts(o)
+        if not isinstance(x, dict) or depth > 4:
+            return False
+        if x.get('k') == 'ref' and x.get('vk') == 'local' and x.get('did') in inits:
+            return obs_of(f, inits[x['did']], inits, depth + 1)
+        return x.get('k') == 'call' and x.get('name') == 'get_threads_in_previous_epoch'
+
+    def admitted(op, c, val):
+        return {n for n in range(1, 10) if ({'>': n > c, '<': n < c, '>=': n >= c, '<=': n <= c, '==': n == c, '!=': n != c}[op]) == val}
+
+    def cmp_obs(f, e, inits):
+        """(op, const) if e is `obs OP const` (either side)"""
+        if not (isinstance(e, dict) and e.get('k') == 'binop' and e.get('op') in ('>', '<', '>=', '<=', '==', '!=')):
+            return None
+        l, r = f.strip_casts(e['l']), f.strip_casts(e['r'])
+        flip = {'>': '<', '<': '>', '>=': '<=', '<=': '>=', '==': '==', '!=': '!='}
+        if obs_of(f, e['l'], inits) and isinstance(r, dict) and r.get('k') == 'int':
+            return e['op'], int(r['v'])
+        if obs_of(f, e['r'], inits) and isinstance(l, dict) and l.get('k') == 'int':
+            return flip[e['op']], int(l['v'])
+        return None
+    for f in cfg.functions:
+        if not f.blocks or f.cls != Q:
+            continue
+        inits = {}
+        for b, i, e in f.elements():
+            if e.get('k') == 'decl':
+                for v in e['vars']:
+                    if 'init' in v:
+                        inits[v['did']] = v['init']
+        for b, i, e in f.elements():
+            if e.get('k') != 'call' or is_assert_elem(e):
+                continue
+            nm = e.get('name')
+            if nm == 'change_epoch' and f.short != 'change_epoch':
+                n_sites += 1
+                res.functions.add(f.sig)
+                adm = set(range(1, 10))
+                seen = False
+                for c, val, cb in control_conditions(f, b):
+                    co = cmp_obs(f, c, inits)
+                    if co:
+                        seen = True
+                        adm &= admitted(co[0], co[1], bool(val))
+                ok = seen and adm == {1}
+                res.ob(ok, {'rule': 'Q-12', 'function': sh(f.name), 'site': fileline(e.get('loc')), 'admitted_counts': sorted(adm) if seen else 'no test of the count', 'verdict': 'discharged' if ok else 'VIOLATION'})
+                if not ok:
+                    res.find(f, e.get('loc'), 'change_epoch() is called when the observed number of threads still in the previous epoch may be %s: the epoch must only be advanced by the last such thread (count exactly 1), otherwise requests that a thread which has not yet passed its quiescent state may reference are rotated towards freeing' % (('any of ' + str(sorted(adm))) if seen else 'anything (no test of the count guards the call)'), key='Q-12:change_epoch', config=cfg.name)
+            elif nm and 'maybe_advance' in nm and len(e.get('args', [])) == 2:
+                n_sites += 1
+                res.functions.add(f.sig)
+                # the flag: a bool local whose initialiser is a conjunction containing `obs == 1`
+                x = f.strip_casts(e['args'][1])
+                d = 0
+                while isinstance(x, dict) and x.get('k') == 'ref' and x.get('vk') == 'local' and x.get('did') in inits and d < 3:
+                    x = f.strip_casts(inits[x['did']])
+                    d += 1
+                conj = []
+
+                def flat(y):
+                    y = f.strip_casts(y)
+                    if isinstance(y, dict) and y.get('k') == 'binop' and y.get('op') == '&&':
+                        flat(y['l'])
+                        flat(y['r'])
+                    else:
+                        conj.append(y)
+                flat(x)
+                adm = set(range(1, 10))
+                seen = False
+                for y in conj:
+                    co = cmp_obs(f, y, inits)
+                    if co:
+                        seen = True
+                        adm &= admitted(co[0], co[1], True)
+                ok = seen and adm == {1}
+                res.ob(ok, {'rule': 'Q-12', 'function': sh(f.name), 'site': fileline(e.get('loc')), 'admitted_counts': sorted(adm) if seen else 'no test of the count', 'verdict': 'discharged' if ok else 'VIOLATION'})
+                if not ok:
+                    res.find(f, e.get('loc'), 'a quitting thread advances the epoch when the observed number of threads still in the previous epoch may be %s: only the last such thread (count exactly 1) may advance it' % (('any of ' + str(sorted(adm))) if seen else 'anything (the advance flag does not test the count)'), key='Q-12:maybe_advance', config=cfg.name)
+    res.count('epoch-advancing sites', n_sites)
+    res.floor('epoch-advancing sites', 2)
+    return res
+
+
+def q_tail_link(cfg):
+    """Q-13: a link store never overwrites an existing link of a shared list"""
+    res = RuleResult('Q-13', 'orphan lists lose no node: a store into the `next` link of a list node either links a private node that is being pushed (taken out of its unique_ptr in the same function), or writes the link of the TAIL - the store is entered directly from a test that has just found that node\'s next pointer null; writing the link of any other node cuts off everything behind it (those requests are never executed and their memory is never returned)')
+    n = 0
+    for f in cfg.functions:
+        if not f.blocks or f.basefile not in ('qsbr.cpp', 'qsbr.hpp'):
+            continue
+        inits = {}
+        for b, i, e in f.elements():
+            if e.get('k') == 'decl':
+                for v in e['vars']:
+                    if 'init' in v:
+                        inits[v['did']] = v['init']
+        preds = f.preds()
+        for b, i, e in f.elements():
+            if e.get('k') != 'binop' or e.get('op') != '=' or is_assert_elem(e):
+                continue
+            l = f.strip_casts(e['l'])
+            if not (isinstance(l, dict) and l.get('k') == 'member' and l.get('name') == 'next' and 'dealloc_vector_list_node' in str((f.strip_casts(l['base']) or {}).get('t'))):
+                continue
+            n += 1
+            res.functions.add(f.sig)
+            pr = f.ref_of(l['base'])
+            private = False
+            if pr and pr[0] in inits:
+                x = f.strip_casts(inits[pr[0]])
+                private = isinstance(x, dict) and x.get('k') == 'call' and x.get('name') == 'release'
+            tail = False
+            if not private and pr:
+                # entered from a test of `P->next` against null with the polarity "is null"
+                for p in preds.get(b, []):
+                    blk = f.blocks[p]
+                    if blk.get('cond') is None:
+                        continue
+                    ss = f.succs(p)
+                    if len(ss) != 2:
+                        continue
+                    o, neg = f.strip_test(blk['cond'])
+                    c = f.resolve(o)
+                    if not (isinstance(c, dict) and c.get('k') == 'binop' and c.get('op') in ('!=', '==')):
+                        continue
+                    cl, cr = f.strip_casts(c['l']), f.strip_casts(c['r'])
+                    for a, z in ((cl, cr), (cr, cl)):
+                        if isinstance(z, dict) and z.get('k') == 'nullptr' and isinstance(a, dict) and a.get('k') == 'member' and a.get('name') == 'next' and (f.ref_of(a['base']) or (None,))[0] == pr[0]:
+                            isnull_when_true = (c['op'] == '==') != neg
+                            succ_true, succ_false = ss[0], ss[1]
+                            if (isnull_when_true and succ_true == b) or (not isnull_when_true and succ_false == b):
+                                # no reassignment of P between the test and the store
+                                reassigned = any(x.get('k') == 'binop' and x.get('op') == '=' and (f.ref_of(x['l']) or (None,))[0] == pr[0] for x in f.blocks[b]['elems'][:i])
+                                tail = not reassigned
+            ok = private or tail
+            res.ob(ok, {'rule': 'Q-13', 'function': sh(f.name), 'site': fileline(e.get('loc')), 'verdict': ('private node being pushed' if private else 'tail link') if ok else 'VIOLATION'})
+            if not ok:
+                res.find(f, e.get('loc'), 'the `next` link of a list node that may already have successors is overwritten (the node is neither private to this thread nor known to be the tail): every node behind it drops out of the orphan list - its requests are never executed, the memory is never freed, yet the list looks consistent', key='Q-13:link-overwrite', config=cfg.name)
+    res.count('link stores', n)
+    res.floor('link stores', 2)
+    return res
+
+
+def q_register_epoch(cfg):
+    """Q-14: a registering thread is only ever given an epoch in which it has been counted"""
+    res = RuleResult('Q-14', 'register_thread: a thread that could only bump the thread count (an epoch change was in progress, so it was NOT added to the threads of the previous epoch) waits for the new epoch and returns that one - a return on that path is guarded by a test that a freshly read epoch differs from the epoch the update was made in; returning the old epoch would let the thread leave an epoch it was never counted in (the count of the previous epoch underflows into the thread count, a second epoch change starts concurrently)')
+    n = 0
+    for f in cfg.functions:
+        if not f.blocks or f.cls != Q or f.short != 'register_thread':
+            continue
+        res.functions.add(f.sig)
+        inits = {}
+        for b, i, e in f.elements():
+            if e.get('k') == 'decl':
+                for v in e['vars']:
+                    if 'init' in v:
+                        inits[v['did']] = v['init']
+
+        def helper_of(o):
+            x = f.strip_casts(o)
+            d = 0
+            while isinstance(x, dict) and x.get('k') == 'ref' and x.get('vk') == 'local' and x.get('did') in inits and d < 3:
+                x = f.strip_casts(inits[x['did']])
+                d += 1
+            return x.get('name') if isinstance(x, dict) and x.get('k') == 'call' else None
+
+        def epoch_src(o):
+            """'old' if the operand is the epoch of the state word the CAS expected, 'fresh' if read from get_state() afterwards"""
+            x = f.strip_casts(o)
+            d = 0
+            while isinstance(x, dict) and d < 5:
+                d += 1
+                if x.get('k') == 'call' and x.get('ck') == 'ctor' and x.get('copy') and x.get('args'):
+                    x = f.strip_casts(x['args'][0])
+                    continue
+                if x.get('k') == 'ref' and x.get('vk') == 'local' and x.get('did') in inits:
+                    x = f.strip_casts(inits[x['did']])
+                    continue
+                break
+            if isinstance(x, dict) and x.get('k') == 'call' and x.get('name') == 'get_epoch':
+                return x
+            return None
+        for b, i, e in f.elements():
+            if e.get('k') != 'return' or e.get('e') is None:
+                continue
+            conds = control_conditions(f, b)
+            cas = [c for c, val, cb in conds if isinstance(c, dict) and c.get('k') == 'call' and (c.get('name') or '').startswith('compare_exchange') and val]
+            if not cas:
+                continue
+            n += 1
+            h = helper_of(cas[-1]['args'][1]) if len(cas[-1].get('args', [])) > 1 else None
+            if h is None:
+                res.incompl('Q-14: the value published by the CAS guarding %s is not a state helper result' % fileline(e.get('loc')))
+                continue
+            counted = 'threads_in_previous_epoch' in h
+            ok = True
+            why = ''
+            if not counted:
+                ret = epoch_src(e['e'])
+                differs = False
+                for c, val, cb in conds:
+                    if isinstance(c, dict) and c.get('k') == 'call' and c.get('ck') == 'op' and c.get('op') in ('==', '!=') and len(c.get('args', [])) == 2:
+                        ne = val if c['op'] == '!=' else (not val)
+                        a0, a1 = epoch_src(c['args'][0]), epoch_src(c['args'][1])
+                        if ne and a0 is not None and a1 is not None and (a0 is ret or a1 is ret) and a0 is not a1:
+                            differs = True
+                ok = ret is not None and differs
+                why = 'the thread count alone was bumped (%s), yet the function returns without having seen the epoch change' % h
+            res.ob(ok, {'rule': 'Q-14', 'site': fileline(e.get('loc')), 'published_by': h, 'verdict': 'discharged' if ok else 'VIOLATION'})
+            if not ok:
+                res.find(f, e.get('loc'), 'register_thread: %s: the new thread believes it is in an epoch in which it was not counted; its first quiescent state decrements a zero count of threads in the previous epoch (borrowing from the thread count) and starts a second, concurrent epoch change - reported thread counts are wrong and pending requests are not executed when they should be' % why, key='Q-14:register-epoch', config=cfg.name)
+    res.count('returns of register_thread', n)
+    res.floor('returns of register_thread', 2)
+    return res
